@@ -3,7 +3,7 @@
 
   `search_until_quiet` follows every capture, promotion and check with no depth limit, and the plain
   (unpruned) quiescence tree of a chess position is usually INFINITE (any perpetual check).  Until now the
-  model's fuel parameter was therefore backed by a hypothesis (`Spec.QFinite`) that only a narrow class of
+  model's fuel parameter was therefore backed by a hypothesis (`Spec.QplainFinite`) that only a narrow class of
   positions satisfies, and C03 listed "termination of an unlimited search" as an assumption.
 
   The engine's own recursion is finite on EVERY position, for a reason that is specific to its window
